@@ -828,6 +828,19 @@ def b_super(ip, *a):
     return I.SuperVal(f.owner, env.vars[first])
 
 
+class RangeVal:
+    def __init__(self, start, stop):
+        self.start, self.stop = start, stop
+
+
+def b_range(ip, *a):
+    if len(a) == 1:
+        return RangeVal(0, a[0])
+    if len(a) == 2:
+        return RangeVal(a[0], a[1])
+    raise Unsupported("range with a step")
+
+
 def b_deque(ip, *a):
     if a:
         raise Unsupported("deque(iterable)")
@@ -872,6 +885,7 @@ GLOBALS = {
     "tuple": Builtin("tuple", b_tuple),
     "current_task": Builtin("current_task", b_current_task),
     "deque": Builtin("deque", b_deque),
+    "range": Builtin("range", b_range),
     "super": Builtin("super", b_super),
     "set": Builtin("set", b_set),
     "OrderedDict": Builtin("OrderedDict", b_odict),
@@ -1020,6 +1034,8 @@ def exec_loop(ip, s, env, f):
     if spec is None:
         raise Unsupported(f"loop {ordinal} of {f.qualname} has no invariant")
     if not isinstance(s, ast.While):
+        if spec._exec_for is None and isinstance(s, ast.For):
+            return exec_for_std(spec, ip, s, env, f, ordinal)
         return spec.exec_for(ip, s, env, f, ordinal)
     tag = f"{f.qualname}/loop{ordinal}"
     # two-state loop invariants may refer to the state at loop entry
@@ -1075,4 +1091,83 @@ def exec_loop(ip, s, env, f):
         ctx.oblige(f"{tag}:{name}:preserved", t, "loop")
     if spec.decreases is not None:
         pass
+    raise PathEnd("loop body done")
+
+
+def exec_for_std(spec, ip, s, env, f, ordinal):
+    """`for x in range(a, b)` / `for x in <deque or list>`: the loop rule with a ghost iteration index.
+
+    The index is `ip.ctx.loop_k` (z3 Int): for a range it is the value of the loop variable of the *next* iteration,
+    for a container the absolute position (lo <= k <= hi) of the next element.  The invariant is asserted at entry
+    (k = start), assumed for an arbitrary k, re-asserted after one body execution (k + 1); the code after the loop
+    continues from an arbitrary k that satisfies the invariant and the exit condition.  A container that is being
+    iterated must not be resized by the body (CPython raises RuntimeError then): lo/hi/data must be outside the
+    loop frame (`spec.modifies`)."""
+    ctx, st = ip.ctx, ip.st
+    tag = f"{f.qualname}/loop{ordinal}"
+    it = ip.eval(s.iter, env, f.modpath)
+    if isinstance(it, RangeVal):
+        start = ip.term(it.start, INT)
+        stop = ip.term(it.stop, INT)
+        more = lambda k: k < stop
+        elem = lambda k: Sym(k, INT)
+    elif is_ref(it) and CLASSES[it.ty.cls].kind == "deque":
+        ci = CLASSES[it.ty.cls]
+        cn = ci.name
+        if spec.modifies is None or {(cn, "lo"), (cn, "hi"), (cn, "data")} & spec.modifies:
+            raise Unsupported("for-loop over a container that the loop frame allows to be resized")
+        start = st.get(cn, "lo", it.t)
+        more = lambda k: k < st.get(cn, "hi", it.t)
+        elem = lambda k: ip.wrap(z3.Select(st.get(cn, "data", it.t), k), ci.elem)
+    else:
+        raise Unsupported(f"for-loop over {it!r}")
+    ctx.loop_entry = H(st, st.snapshot())
+    ctx.loop_k = start
+    for name, t in spec.inv(ip, env):
+        ctx.oblige(f"{tag}:{name}:entry", t, "loop")
+    names = assigned_names(s.body) | assigned_names([s.target])
+    for nm in sorted(names):
+        if nm in env.vars:
+            env.vars[nm] = generalize(ip, env.vars[nm], spec.local_types.get(nm))
+    st.havoc(keys=spec.modifies)
+    spec.after_havoc(ip, env)
+    k = st.fresh("k", z3.IntSort())
+    st.assume(k >= start)
+    ctx.loop_k = k
+    for name, t in spec.inv(ip, env):
+        st.assume(t)
+    if not ctx.branch(more(k), f"for:{s.lineno}"):
+        ip.exec_block(s.orelse, env, f)
+        return
+    ip.assign(s.target, elem(k), env, f)
+    if st.writes is None:
+        st.writes = []
+    wset = set()
+    st.writes.append(wset)
+
+    def drop():
+        if wset in (st.writes or []):
+            st.writes.remove(wset)
+            if not st.writes:
+                st.writes = None
+
+    try:
+        try:
+            ip.exec_block(s.body, env, f)
+        except I._Continue:
+            pass
+    except I._Break:
+        drop()
+        return
+    except (PyExc, I._Return, PathEnd):
+        drop()
+        raise
+    drop()
+    if spec.modifies is not None:
+        extra = {w for w in wset if w not in spec.modifies and w[0] != "$"}
+        if extra:
+            ctx.fail(f"{tag}:frame", "frame", f"loop body writes {sorted(extra)} outside its declared frame")
+    ctx.loop_k = k + 1
+    for name, t in spec.inv(ip, env):
+        ctx.oblige(f"{tag}:{name}:preserved", t, "loop")
     raise PathEnd("loop body done")
